@@ -166,6 +166,10 @@ fn alphabet(n: usize, tier: Tier) -> Vec<Dev> {
         s.variants[0].extra_attrs.push("#[default]".into());
         true
     }));
+    d.push(dev("strum_discriminants(::core::prelude::v1::derive(PartialOrd)) (pass-through attribute named by a path)", &["dder1"], |s| {
+        s.extra_attrs.push("#[strum_discriminants(::core::prelude::v1::derive(PartialOrd))]".into());
+        true
+    }));
     d.push(dev("strum_discriminants(cfg_attr(all(), derive(EnumMessage))) + v0 pass-through message", &["dd", "dmsg0"], |s| {
         s.extra_attrs.push("#[strum_discriminants(cfg_attr(all(), derive(strum::EnumMessage)))]".into());
         s.variants[0].extra_attrs.push("#[strum_discriminants(strum(message = \"dm0\"))]".into());
@@ -380,6 +384,9 @@ pub fn render(spec: &EnumSpec) -> String {
     let all = spec.extra_attrs.join(" ");
     // the generated type always derives Clone, Copy, Debug, PartialEq, Eq
     o.push_str("    fn _always<X: Clone + Copy + core::fmt::Debug + PartialEq + Eq>() {}\n    _always::<DC>();\n");
+    if all.contains("prelude::v1::derive(PartialOrd)") {
+        o.push_str("    fn _req_path<X: PartialOrd>() {}\n    _req_path::<DC>();\n");
+    }
     if all.contains("Hash, PartialOrd, Ord") {
         o.push_str("    fn _req<X: core::hash::Hash + PartialOrd + Ord>() {}\n    _req::<DC>();\n");
         if spec.variants.len() >= 2 {
